@@ -355,3 +355,169 @@ def announce_race(delay_ms=400):
         return dict(first_served=t in fids, control_served=t2 in fids, n_out=len(outs))
     finally:
         cl.close()
+
+
+# ---- restart scenarios (C17) ---------------------------------------------------------------------
+HANDLER_PONG = '{ resume_from: "tail", run: {|frame| if $frame.topic != "trig" { return }; "pong" } }'
+HANDLER_BAD = "{ run: {|| 42 } }"
+CMD_ECHO = '{ run: {|frame| "c-out" } }'
+GEN_DUPLEX = 'each { |x| $"hi: ($x)" }'
+
+
+def classify(frames):
+    """the dispatcher-relevant history as model rframes: (id, ctx, name, kind, ref)"""
+    out = []
+    for f in frames:
+        t = f["topic"]
+        kind = None
+        for suf, k in ((".register", "register"), (".unregistered", "unregistered"), (".unregister", "unregister"),
+                       (".spawn.error", "spawn.error"), (".spawn", "spawn"), (".define", "define")):
+            if t.endswith(suf):
+                kind, name = k, t[: -len(suf)]
+                break
+        if kind is None:
+            continue
+        ref = None
+        if f["meta"]:
+            v = f["meta"].get("handler_id") or (f["meta"].get("source_id") if kind == "spawn.error" else None)
+            try:
+                ref = H.s_to_id(v) if isinstance(v, str) else None
+            except Exception:
+                ref = None
+        out.append((f["id"], f["ctx"], name, kind, ref))
+    return out
+
+
+def model_restart(rframes, by_ctx=True):
+    lines = [f"R {H.hex32(i)} {H.hex32(c)} {xh(n)} {k} {H.hex32(r) if r is not None else '-'}" for (i, c, n, k, r) in rframes]
+    m = subprocess.run([build.XSMODEL, "restart", "1" if by_ctx else "0"], input=("\n".join(lines) + "\n").encode(),
+                       stdout=subprocess.PIPE, stderr=subprocess.PIPE, timeout=60)
+    res = {}
+    for l in m.stdout.decode().splitlines():
+        t = l.split(" ")
+        res[t[0]] = [int(x, 16) for x in t[1:]]
+    return res
+
+
+def run_restart_scenario(seed, n_events=12, kill=True):
+    """history of register/unregister/replace/invalid, spawn/refused spawn, define/redefine over several names and
+    contexts -> restart on the same store -> which instances answer probes, by id"""
+    r = random.Random(seed)
+    cl = Client("api,handlers,generators,commands")
+    rep = dict(seed=seed, violations=[], events=[])
+    try:
+        ctxs = [0]
+        for _ in range(r.choice([1, 1, 2])):
+            c = cl.append("xs.context")
+            if c:
+                ctxs.append(c)
+        names = ["h", "h", "k"]
+        for _ in range(n_events):
+            ev = r.choices(["register", "unregister", "badreg", "spawn", "define", "call", "trig"], [6, 2, 1, 3, 3, 1, 2])[0]
+            c = r.choice(ctxs)
+            if ev == "register":
+                n = r.choice(names)
+                i = cl.append(n + ".register", ctx=c, body=HANDLER_PONG.encode())
+                cl.wait_topic(n + ".registered", ctx=c, after=i or 0, timeout=5)
+            elif ev == "badreg":
+                n = r.choice(names)
+                i = cl.append(n + ".register", ctx=c, body=HANDLER_BAD.encode())
+                cl.wait_topic(n + ".unregistered", ctx=c, after=i or 0, timeout=5)
+            elif ev == "unregister":
+                n = r.choice(names)
+                i = cl.append(n + ".unregister", ctx=c)
+                cl.settle(0.25, 3)
+            elif ev == "spawn":
+                n = r.choice(["g", "g", "g2"])
+                i = cl.append(n + ".spawn", ctx=c, body=GEN_DUPLEX.encode(), meta={"duplex": True})
+                cl.settle(0.25, 3)
+            elif ev == "define":
+                n = r.choice(["c", "c", "d"])
+                cl.append(n + ".define", ctx=c, body=(CMD_ECHO if r.random() < 0.85 else "{ run: {|frame| ").encode())
+                cl.settle(0.2, 3)
+            elif ev == "call":
+                cl.append(r.choice(["c", "d"]) + ".call", ctx=c); cl.settle(0.25, 3)
+            else:
+                cl.append("trig", ctx=c); cl.settle(0.2, 3)
+            rep["events"].append(f"{ev}@{ctxs.index(c)}")
+        cl.settle()
+        before = cl.frames()
+        hist = classify(before)
+        # live truth before the restart: which instances answer now
+        def probe(client, after_id):
+            act = dict(handlers=set(), generators=set(), commands=set())
+            marks = {}
+            for c in ctxs:
+                marks[("trig", c)] = client.append("trig", ctx=c)
+                for g in ("g", "g2"):
+                    marks[(g, c)] = client.append(g + ".send", ctx=c, body=b"probe")
+                for n in ("c", "d"):
+                    marks[(n + ".call", c)] = client.append(n + ".call", ctx=c)
+            client.settle(0.5, 20)
+            for f in client.frames():
+                if f["id"] <= after_id or not f["meta"]:
+                    continue
+                m = f["meta"]
+                try:
+                    if f["topic"].endswith(".out") and m.get("handler_id"):
+                        act["handlers"].add((H.s_to_id(m["handler_id"]), f["ctx"]))
+                    if f["topic"].endswith(".recv") and m.get("source_id"):
+                        act["generators"].add((H.s_to_id(m["source_id"]), f["ctx"]))
+                    if f["topic"].endswith(".recv") and m.get("command_id"):
+                        act["commands"].add((H.s_to_id(m["command_id"]), f["ctx"]))
+                except Exception:
+                    pass
+            return act
+        last_id = before[-1]["id"] if before else 0
+        live = probe(cl, last_id)
+        path = cl.path
+        if kill:
+            cl.kill()
+        else:
+            cl.p.stdin.write("quit\n"); cl.p.stdin.flush(); cl.p.wait(timeout=5)
+        cl2 = Client("api,handlers,generators,commands", path=path)
+        try:
+            time.sleep(0.3)
+            cl2.settle(0.4, 10)
+            mid = cl2.frames()
+            after = probe(cl2, mid[-1]["id"] if mid else 0)
+            # the frames written by the probes before the restart are part of the history the new server replays
+            hist2 = classify(mid)
+            spec = model_restart(hist2, True)
+            code = model_restart(hist2, False)
+            rep["n_hist"] = len(hist2)
+            ids = lambda s_: sorted({i for (i, c) in s_})
+            for kind, speckey in (("handlers", "spec_handlers"), ("generators", "spec_generators")):
+                want = sorted(spec[speckey])
+                got = ids(after[kind])
+                if got != want:
+                    rep["violations"].append(dict(
+                        what=f"after the restart the active {kind} are {[hex(i)[-6:] for i in got]} but the history says "
+                             f"{[hex(i)[-6:] for i in want]} should be active (keyed by (context, name)); before the restart "
+                             f"{[hex(i)[-6:] for i in ids(live[kind])]} answered; events: {' '.join(rep['events'])}",
+                        kind=kind, spec=want, got=got, name_keyed_model=sorted(code[kind])))
+            # commands: the table in force is whatever the code keeps; what must hold: same answers before and after
+            if ids(after["commands"]) != ids(live["commands"]):
+                rep["violations"].append(dict(
+                    what=f"commands answering after the restart {[hex(i)[-6:] for i in ids(after['commands'])]} differ from "
+                         f"before {[hex(i)[-6:] for i in ids(live['commands'])]}; events: {' '.join(rep['events'])}", kind="commands"))
+            # nothing re-executed: no handler output / command result refers to a pre-restart trigger after the restart
+            pre_ids = {f["id"] for f in before}
+            for f in cl2.frames():
+                if f["id"] in pre_ids or not f["meta"] or f["id"] <= (mid[-1]["id"] if mid else 0):
+                    continue
+                fid = f["meta"].get("frame_id")
+                if fid and f["topic"].endswith((".out", ".recv", ".complete")):
+                    try:
+                        if H.s_to_id(fid) in pre_ids and H.s_to_id(fid) <= last_id:
+                            rep["violations"].append(dict(what=f"a historical trigger/call {fid} was re-executed after the restart "
+                                                               f"(new frame {f['topic']})", kind="replay"))
+                    except Exception:
+                        pass
+        finally:
+            cl2.close()
+        cl = None
+        return rep
+    finally:
+        if cl is not None:
+            cl.close()
